@@ -11,12 +11,15 @@ use serde_json::json;
 
 pub const PROP: &str = "C08";
 
-const LEAVES: [&str; 18] = [
+const LEAVES: [&str; 21] = [
     "int", "void", "String", "CharSequence", "List", "Map", "IBinder", "FileDescriptor",
     "ParcelFileDescriptor", "ParcelableHolder", "Itf", "Par", "En", "Fw", "Unk", "Nope",
     "android.os.ParcelFileDescriptor",
     // a user type that is called like the synthetic name of array types
     "Array",
+    // data values: unresolvable qualified names whose last segment is spelled like a built-in,
+    // and a name that is a textual suffix of an imported simple name (`Itf`)
+    "java.io.FileDescriptor", "com.acme.os.ParcelableHolder", "tf",
 ];
 
 fn chains(depth: usize) -> Vec<Ty> {
@@ -187,7 +190,7 @@ pub fn run(tier: Tier, seed: u64) -> i32 {
     let all = classes.iter().all(|c| stats.outcome_count(&format!("class:{c}")) > 0);
     finish(
         &stats,
-        "every container built by chains over {T[], List<T>, Map<String,T>, Map<T,String>} up to the stated depth over 18 leaf categories (reached through real resolution; one is a user type called `Array`), plus all Map<k,v> over leaf pairs and single chains of depth 6-24, each in return / argument / field / constant position, with three headers (plain; importing the built-ins it uses; importing project items / declaring a parcelable named like built-ins); inside the extent of every type the diagnostics are compared with the statement's element tables applied to every container node; distinct_nontrivial counts distinct (type, position) pairs",
+        "every container built by chains over {T[], List<T>, Map<String,T>, Map<T,String>} up to the stated depth over 21 leaf categories (reached through real resolution; one is a user type called `Array`), plus all Map<k,v> over leaf pairs and single chains of depth 6-24, each in return / argument / field / constant position, with three headers (plain; importing the built-ins it uses; importing project items / declaring a parcelable named like built-ins); inside the extent of every type the diagnostics are compared with the statement's element tables applied to every container node; distinct_nontrivial counts distinct (type, position) pairs",
         &[
             "element tables transcribed from the statement; an unresolved name as map key is left open (statement contradictory)",
             "the comparison covers every validation diagnostic located inside a type's extent (unknown-type Errors and missing-direction Errors included, from the same reference)",
